@@ -327,7 +327,15 @@ class Tr:
                 e2.names[d] = (v, ty[4:])
                 return f'(bind {t} (fun {v} =>\n {nxt(e2)}))'
             e2.names[d] = (v, ty)
-            return f'(let {v} := {t} in\n {nxt(e2)})'
+            body = f'(let {v} := {t} in\n {nxt(e2)})'
+            # Python raises ZeroDivisionError where Coq's division is total: guard every non-literal rational / integer denominator
+            if ty in ('Q', 'Z'):
+                for dn in [n.right for n in ast.walk(val) if isinstance(n, ast.BinOp) and isinstance(n.op, (ast.Div, ast.FloorDiv, ast.Mod)) and not self.is_lit(n.right)]:
+                    try: dt_, dty = self.expr(dn, env, ty)
+                    except Untranslatable: continue
+                    if dty == 'Q': body = f'(if Qeq_bool {dt_} 0 then (Err EZeroDiv) else\n {body})'
+                    elif dty == 'Z': body = f'(if Z.eqb {dt_} 0 then (Err EZeroDiv) else\n {body})'
+            return body
         if isinstance(s, ast.If):
             c, tc = self.expr(s.test, env)
             if tc != 'B': fail(s, 'non-boolean condition')
